@@ -143,6 +143,25 @@ func (c *c04state) advRegister(step int, st *kernel.Step) {
 	ctx, cancel := context.WithTimeout(context.Background(), 10*time.Second)
 	defer cancel()
 	err := p.w.Ledger.Party(p.n[c.adv].Name).Register(ctx, req, subs)
+	if err == nil && st.Int("honest_fail") == 1 {
+		// the honest side's next ledger transaction fails with a transient error
+		// (its refutation does not go through at the first attempt). The property
+		// does not quantify over ledger faults, so the fault comes with what makes
+		// it survivable: the chain node delivers the latest registered event
+		// again, twice, and the fault is disarmed before the second time
+		hn := p.n[c.honest].Name
+		p.w.Ledger.ArmRegisterFailure(hn, true)
+		p.s.Count("fault.honest_register_fails_once", 1)
+		p.wg.Add(1)
+		go func() {
+			defer p.wg.Done()
+			time.Sleep(100*time.Millisecond + p.s.Delay(fmt.Sprintf("adv:redeliver:%d", step), 0, 100*time.Millisecond))
+			p.w.Ledger.Redeliver(id)
+			time.Sleep(150*time.Millisecond + p.s.Delay(fmt.Sprintf("adv:redeliver2:%d", step), 0, 50*time.Millisecond))
+			p.w.Ledger.ArmRegisterFailure(hn, false)
+			p.w.Ledger.Redeliver(id)
+		}()
+	}
 	p.s.Count("fault.outdated_registration", 1)
 	p.s.Event("ADV", "adv:register", fmt.Sprintf("%s v%d (latest v%d) err=%v", p.s.ChanName(id), want, latest, err))
 	c.mu.Lock()
@@ -446,8 +465,12 @@ func (c *c04state) shape() string {
 				occasion = true
 			}
 		}
+		// (an event that arrives when the challenge period is over, or so late in
+		// it that a registration issued at once could not be mined in time, is no
+		// occasion to refute)
+		_, deadline, _, _ := p.w.Ledger.Registered(cid)
 		for _, d := range p.w.Ledger.Deliveries(p.w.Ledger.FirstSubName(h.Name, cid)) {
-			if d.Registered && d.Version < newest.Version && d.At > handed {
+			if d.Registered && d.Version < newest.Version && d.At > handed && d.At+p.w.Ledger.MaxLat+5*time.Millisecond < deadline {
 				occasion = true
 			}
 		}
